@@ -1078,11 +1078,14 @@ func rulesC09(r *Run) {
 	ruleSkipBlock(r, "R1")
 	ruleRecoveryTerminal(r, "R1")
 	ruleIsCompleted(r, "R1")
-	r.Expect("R1", 9)
+	ruleFilterCompaction(r, "R1") // a plan closed as Failed at start-up must not also be resumed
+	r.Expect("R1", 10)
 
 	r.Kind("R2", "K2")
 	ruleFixAction(r, "R2")
-	r.Expect("R2", 3)
+	ruleFixNotStarted(r, "R2")
+	r.CallersWithin("R2", pkgSM+".resetAction", pkgSM+".fixAction", pkgSM+".fixChecks")
+	r.Expect("R2", 8)
 
 	r.Kind("R3", "K10")
 	for _, k := range []string{pkgSM + ".fixAction", pkgSM + ".fixChecks", pkgSM + ".fixSeq", smKey("fixBlock"), smKey("fixPlan")} {
